@@ -3,6 +3,7 @@ package hamt
 import (
 	"context"
 	"fmt"
+	"sync"
 
 	bitfield "github.com/ipfs/go-bitfield"
 	"github.com/ipfs/go-unixfsnode/data"
@@ -26,11 +27,15 @@ var _ ipld.ADL = UnixFSHAMTShard(nil)
 type UnixFSHAMTShard = *_UnixFSHAMTShard
 
 type _UnixFSHAMTShard struct {
-	ctx          context.Context
-	_substrate   dagpb.PBNode
-	data         data.UnixFSData
-	lsys         *ipld.LinkSystem
-	bitfield     bitfield.Bitfield
+	ctx        context.Context
+	_substrate dagpb.PBNode
+	data       data.UnixFSData
+	lsys       *ipld.LinkSystem
+	bitfield   bitfield.Bitfield
+
+	// mu guards the two memos below so that a reified shard can be read from several
+	// goroutines; it is never held across a block load.
+	mu           sync.Mutex
 	shardCache   map[ipld.Link]*_UnixFSHAMTShard
 	cachedLength int64
 }
@@ -148,7 +153,9 @@ func AttemptHAMTShardFromNode(ctx context.Context, nd ipld.Node, lsys *ipld.Link
 }
 
 func (n UnixFSHAMTShard) loadChild(pbLink dagpb.PBLink) (UnixFSHAMTShard, error) {
+	n.mu.Lock()
 	cached, ok := n.shardCache[pbLink.FieldHash().Link()]
+	n.mu.Unlock()
 	if ok {
 		return cached, nil
 	}
@@ -160,7 +167,9 @@ func (n UnixFSHAMTShard) loadChild(pbLink dagpb.PBLink) (UnixFSHAMTShard, error)
 	if err != nil {
 		return nil, err
 	}
+	n.mu.Lock()
 	n.shardCache[pbLink.FieldHash().Link()] = und
+	n.mu.Unlock()
 	return und, nil
 }
 
@@ -265,8 +274,11 @@ func (n UnixFSHAMTShard) ListIterator() ipld.ListIterator {
 // Length returns the length of a list, or the number of entries in a map,
 // or -1 if the node is not of list nor map kind.
 func (n UnixFSHAMTShard) length() (int64, error) {
-	if n.cachedLength != -1 {
-		return n.cachedLength, nil
+	n.mu.Lock()
+	cachedLength := n.cachedLength
+	n.mu.Unlock()
+	if cachedLength != -1 {
+		return cachedLength, nil
 	}
 	maxPadLen := maxPadLength(n.data)
 	total := int64(0)
@@ -291,7 +303,9 @@ func (n UnixFSHAMTShard) length() (int64, error) {
 			total += cl
 		}
 	}
+	n.mu.Lock()
 	n.cachedLength = total
+	n.mu.Unlock()
 	return total, nil
 }
 
